@@ -39,6 +39,7 @@ type c13WLeaf struct {
 	path   string // a::b::c
 	v      any
 	secret bool
+	enum   bool // text-marshalled enumeration: the effective configuration may change the case (Level.MarshalText)
 }
 
 func (i *c13Inst) id() string {
@@ -133,17 +134,36 @@ var c13Catalog = map[string][]c13Special{
 	"exporters/otlp":     {{"endpoint", "endpoint", nil}, {"headers", "secretmap", nil}, {"tls::ca_pem", "secret", nil}},
 	"receivers/otlp": {{"protocols::grpc::endpoint", "endpoint", nil}, {"protocols::http::endpoint", "endpoint", nil},
 		{"protocols::http::response_headers", "secretmap", nil}, {"protocols::grpc::tls::key_pem", "secret", nil}},
-	"exporters/debug":         {{"verbosity", "enum", []string{"basic", "normal", "detailed"}}},
-	"extensions/zpages":       {{"endpoint", "endpoint", nil}},
-	"processors/batch":        nil,
+	"exporters/debug":           {{"verbosity", "enum", []string{"normal", "detailed"}}}, // "basic" is the zero value: dropped by omitempty,
+	"extensions/zpages":         {{"endpoint", "endpoint", nil}},
+	"processors/batch":          nil,
 	"processors/memory_limiter": nil,
 	"extensions/memory_limiter": nil,
-	"connectors/forward":      nil,
-	"receivers/nop":           nil,
-	"exporters/nop":           nil,
+	"connectors/forward":        nil,
+	"receivers/nop":             nil,
+	"exporters/nop":             nil,
 }
 
-func c13Render(v any) string { return vHex(fmt.Sprint(v)) }
+// c13Norm renders a leaf independent of its named type (time.Duration(5) and int64(5) are the same setting).
+func c13Norm(v any) string {
+	rv := reflect.ValueOf(v)
+	if !rv.IsValid() {
+		return "<nil>"
+	}
+	switch rv.Kind() {
+	case reflect.Int, reflect.Int8, reflect.Int16, reflect.Int32, reflect.Int64:
+		return fmt.Sprint(rv.Int())
+	case reflect.Uint, reflect.Uint8, reflect.Uint16, reflect.Uint32, reflect.Uint64:
+		return fmt.Sprint(rv.Uint())
+	case reflect.Float32, reflect.Float64:
+		return fmt.Sprint(rv.Float())
+	case reflect.Bool:
+		return fmt.Sprint(rv.Bool())
+	}
+	return fmt.Sprint(v)
+}
+
+func c13Render(v any) string { return vHex(c13Norm(v)) }
 
 func c13Pairs(m map[string]string) string {
 	if len(m) == 0 {
@@ -255,7 +275,7 @@ func TestVerifC13Load(t *testing.T) {
 						}
 						seen[tg.path] = true
 						c13SetPath(in.written, tg.path, tg.v)
-						in.leaves = append(in.leaves, c13WLeaf{tg.path, tg.v, false})
+						in.leaves = append(in.leaves, c13WLeaf{path: tg.path, v: tg.v})
 					}
 				}
 				for _, sp := range c13Catalog[k] {
@@ -266,20 +286,20 @@ func TestVerifC13Load(t *testing.T) {
 					case "endpoint":
 						v := fmt.Sprintf("host-%d-%d:%d", c, len(insts), 1000+rnd.IntN(9000))
 						c13SetPath(in.written, sp.path, v)
-						in.leaves = append(in.leaves, c13WLeaf{sp.path, v, false})
+						in.leaves = append(in.leaves, c13WLeaf{path: sp.path, v: v})
 					case "enum":
 						v := sp.vals[rnd.IntN(len(sp.vals))]
 						c13SetPath(in.written, sp.path, v)
-						in.leaves = append(in.leaves, c13WLeaf{sp.path, v, false})
+						in.leaves = append(in.leaves, c13WLeaf{path: sp.path, v: v, enum: true})
 					case "secret":
 						v := secret()
 						c13SetPath(in.written, sp.path, v)
-						in.leaves = append(in.leaves, c13WLeaf{sp.path, v, true})
+						in.leaves = append(in.leaves, c13WLeaf{path: sp.path, v: v, secret: true})
 					case "secretmap":
 						for _, hk := range []string{"authorization", "x-api-key"}[:1+rnd.IntN(2)] {
 							v := secret()
 							c13SetPath(in.written, sp.path+"::"+hk, v)
-							in.leaves = append(in.leaves, c13WLeaf{sp.path + "::" + hk, v, true})
+							in.leaves = append(in.leaves, c13WLeaf{path: sp.path + "::" + hk, v: v, secret: true})
 						}
 					}
 				}
@@ -369,6 +389,8 @@ func TestVerifC13Load(t *testing.T) {
 			for _, l := range in.leaves {
 				if l.secret {
 					wS[vHex(l.path)] = "!" + vHex(l.v.(string))
+				} else if l.enum {
+					continue // rendered by the type's MarshalText; taken from the isolated load
 				} else {
 					wS[vHex(l.path)] = c13Render(l.v)
 				}
@@ -406,7 +428,8 @@ func TestVerifC13Load(t *testing.T) {
 					if s, isStr := g.(string); !isStr || s != "[REDACTED]" {
 						out.Linef("viol sig=C13/effective/secret-in-effective-config id=%s/%s path=%s got=%s type=%T", in.section, in.id(), l.path, vHex(fmt.Sprint(g)), g)
 					}
-				case fmt.Sprint(g) != fmt.Sprint(l.v):
+				case l.enum && strings.EqualFold(c13Norm(g), c13Norm(l.v)):
+				case c13Norm(g) != c13Norm(l.v):
 					out.Linef("viol sig=C13/effective/written-key-not-reflected id=%s/%s path=%s wrote=%v got=%v", in.section, in.id(), l.path, l.v, g)
 				}
 				if l.secret && strings.Contains(effText, l.v.(string)) {
